@@ -432,6 +432,7 @@ Section Top.
 
   Notation bld := (build B C OR).
   Notation sktok := (skel_tok D B C OR).
+  Notation static_tok := (Skel.static_tok B C OR).
 
   (* a thematic break at the top level is fine; elsewhere the token must be free of them *)
   Definition hr_top (t : tok) : bool :=
